@@ -5,6 +5,7 @@ import (
 	"fmt"
 	"os"
 	"path/filepath"
+	"strings"
 
 	"bklverif/fsx"
 	"bklverif/gen"
@@ -86,6 +87,39 @@ func Replay(id, path string) int {
 		var v wrapVector
 		json.Unmarshal(rf.Case.Vector, &v)
 		return report(replayWrap(r, &v), nil)
+	case "longline":
+		before := len(r.Viol)
+		longLineCheck(r)
+		if len(r.Viol) > before {
+			return report("a long-line text is still read differently", r.Viol[len(r.Viol)-1])
+		}
+		return report("", nil)
+	case "stream":
+		var c struct {
+			Ext    string       `json:"ext"`
+			CRLF   bool         `json:"crlf"`
+			Text   string       `json:"text"`
+			Vector streamVector `json:"vector"`
+		}
+		raw, _ := json.Marshal(map[string]any{})
+		_ = raw
+		var whole struct {
+			Case json.RawMessage `json:"case"`
+		}
+		json.Unmarshal(b, &whole)
+		json.Unmarshal(whole.Case, &c)
+		want := &c.Vector.Yaml
+		if c.Ext == "toml" {
+			want = &c.Vector.Toml
+		}
+		ok, docs, msg := readStream(r, c.Ext, c.Text)
+		if ok != want.OK {
+			return report(fmt.Sprintf("specification ok=%v, Parser ok=%v (%s)", want.OK, ok, msg), docs)
+		}
+		if ok && strings.Join(docs, " | ") != strings.Join(wantDocs(want, c.Ext), " | ") {
+			return report("the Parser holds other documents than the specification reads", docs)
+		}
+		return report("", nil)
 	case "trace":
 		sess, ok := redrive(r, rf.Case.Events)
 		if !ok {
